@@ -297,6 +297,11 @@ Theorem C16_gen_sub : forall a b, gen_sub a b = GOk (obj_of_rd (sub_rd (rd_of_ob
 Proof. exact gen_sub_correct. Qed.
 Print Assumptions C16_gen_sub.
 
+Theorem C16_gen_add_td : forall o t,
+  gen_add_td o t = GOk (obj_of_rd (add_td (rd_of_obj o) (td_days t) (td_seconds t) (td_microseconds t))).
+Proof. exact gen_add_td_correct. Qed.
+Print Assumptions C16_gen_add_td.
+
 Theorem C16_gen_mul : forall o k, gen_mul o k = GOk (obj_of_rd (mul_int (rd_of_obj o) k)).
 Proof. exact gen_mul_correct. Qed.
 Print Assumptions C16_gen_mul.
@@ -308,6 +313,10 @@ Print Assumptions C16_gen_bool.
 Theorem C16_gen_eq : forall a b, gen_eq a b = GOk (eqb (rd_of_obj a) (rd_of_obj b)).
 Proof. exact gen_eq_correct. Qed.
 Print Assumptions C16_gen_eq.
+
+Theorem C16_gen_ne : forall a b, gen_ne a b = GOk (negb (eqb (rd_of_obj a) (rd_of_obj b))).
+Proof. exact gen_ne_correct. Qed.
+Print Assumptions C16_gen_ne.
 
 Theorem C16_gen_hash : forall o, gen_hash o = GOk (tuple_of_key (hash_key (rd_of_obj o))).
 Proof. exact gen_hash_correct. Qed.
